@@ -314,6 +314,27 @@ def explore(run, oracle: Oracle, max_runs: int = 256):
     return out
 
 
+class OpaqueTuple(Stub):
+    """A fixed-length result whose elements do not matter: it unpacks, indexes and answers any field name with an opaque value."""
+
+    def __init__(self, n: int, what: str = "result"):
+        self._n, self._what = n, what
+
+    def __iter__(self):
+        return iter([Opaque(f"{self._what}[{i}]") for i in range(self._n)])
+
+    def __getitem__(self, i):
+        return Opaque(f"{self._what}[{i}]")
+
+    def _abs_len(self):
+        return self._n
+
+    def __getattr__(self, name):
+        if name.startswith("_"):
+            raise AttributeError(name)
+        return Opaque(f"{self._what}.{name}")
+
+
 class Opaque(Stub):
     """A value whose content does not matter to the analysis (labels, settings-derived numbers): every attribute, call, item and
     arithmetic result is again opaque.  Use only for values that cannot influence the property being decided."""
